@@ -853,12 +853,105 @@ def ops_from_trace(ev, v0, jx):
     return ops
 
 
+def ctl_parts(d):
+    """what every control of the description refers to: [cond refs, then refs, else refs], ref = ("n"|"l", name)"""
+    out = []
+    for k in d["controls"]:
+        cond = [("n", k["ref"])] if k["kind"] in ("tank", "rule") else []
+        out.append(dict(cond=cond, then=[("l", k["target"])], els=[]))
+    return out
+
+
+def apply_history(wntr, wn, d, history, parts, ctx):
+    """edits the controls of `wn` through their public update_* methods, interleaved with calls that make the model ask the
+    controls for requires(); `parts` follows along at description level.  Returns the ctlrefs edit tokens, or None when a
+    query unexpectedly changed the model (then the case is dropped: that is C14's subject)."""
+    from wntr.network import controls as c
+    from wntr.network.base import LinkStatus
+
+    edits = []
+    for h in history:
+        if h["op"] == "query":
+            ctx.count("skel:history:query-" + h["how"])
+            if h["how"] == "requires":
+                for _, ctl in wn.controls():
+                    ctl.requires()
+            elif h["how"] == "remove_refused":
+                tg = [r[1] for p_ in parts for r in p_["then"] + p_["els"] if r[0] == "l"]
+                if tg:
+                    try:
+                        wn.remove_link(tg[0])
+                        return None
+                    except Exception:
+                        pass
+            else:
+                os.makedirs(SCRATCH, exist_ok=True)
+                cwd = os.getcwd()
+                os.chdir(SCRATCH)
+                try:
+                    with warnings.catch_warnings():
+                        warnings.simplefilter("ignore")
+                        wntr.morph.skeletonize(wn, 0.0, use_epanet=False, return_copy=False)
+                except Exception:
+                    pass
+                finally:
+                    os.chdir(cwd)
+                wn.reset_initial_values()
+            continue
+        ctl = wn.get_control("c%d" % h["ctl"])
+        ctx.count("skel:history:" + h["op"])
+        if h["op"] in ("else", "then"):
+            act = [c.ControlAction(wn.get_link(h["target"]), "status", LinkStatus[h["status"]])]
+            if h["op"] == "else":
+                ctl.update_else_actions(act)
+                parts[h["ctl"]]["els"] = [("l", h["target"])]
+                edits.append("e,%d,l:%s" % (h["ctl"], h["target"]))
+            else:
+                ctl.update_then_actions(act)
+                parts[h["ctl"]]["then"] = [("l", h["target"])]
+                edits.append("t,%d,l:%s" % (h["ctl"], h["target"]))
+        elif h["op"] == "cond":
+            if h.get("ref"):
+                ctl.update_condition(c.ValueCondition(wn.get_node(h["ref"]), "pressure", h["rel"], h["pressure"]))
+                parts[h["ctl"]]["cond"] = [("n", h["ref"])]
+                edits.append("c,%d,n:%s" % (h["ctl"], h["ref"]))
+            else:
+                ctl.update_condition(c.SimTimeCondition(wn, "=", h["at"]))
+                parts[h["ctl"]]["cond"] = []
+                edits.append("c,%d," % h["ctl"])
+        else:
+            ctl.update_priority(c.ControlPriority(h["p"]))
+            edits.append("p,%d" % h["ctl"])
+    return edits
+
+
 def gen_skel_cfg(rng, d, thorough=False):
     diams = sorted(set(p["diam"] for p in d["pipes"]))
     thr = rng.choice(diams + [0.0, 1.0, 0.12])
     pn = [p["name"] for p in d["pipes"]]
     jn = [n["name"] for n in d["nodes"] if n["kind"] == "J"]
-    return dict(thr=thr, branch=rng.random() < 0.8, series=rng.random() < 0.8, parallel=rng.random() < 0.8,
+    history = []
+    if d["controls"] and rng.random() < 0.6:
+        deg = {j: sum(1 for q in d["pipes"] if j in (q["a"], q["b"])) for j in jn}
+        lowj = [j for j in jn if deg[j] <= 2] or jn
+        small = [p["name"] for p in d["pipes"] if p["diam"] <= thr and (deg.get(p["a"], 9) <= 2 or deg.get(p["b"], 9) <= 2)] or pn
+        queries = [dict(op="query", how=h) for h in ("requires", "requires", "remove_refused", "skel0")]
+        for _ in range(rng.randint(1, 4)):
+            i = rng.randrange(len(d["controls"]))
+            if rng.random() < 0.6:
+                history.append(rng.choice(queries))
+            k = rng.choice(["else", "else", "then", "cond", "cond_time", "priority"])
+            if k in ("else", "then"):
+                history.append(dict(op=k, ctl=i, target=rng.choice(small if rng.random() < 0.8 else pn), status=rng.choice(["CLOSED", "OPEN"])))
+            elif k == "cond":
+                history.append(dict(op="cond", ctl=i, ref=rng.choice(lowj), pressure=rng.choice([5.0, 20.0]), rel=rng.choice(["<", ">"])))
+            elif k == "cond_time":
+                history.append(dict(op="cond", ctl=i, ref=None, at=3600 * rng.randint(1, 3)))
+            else:
+                history.append(dict(op="priority", ctl=i, p=rng.choice([0, 3, 6])))
+        if rng.random() < 0.3:
+            history.append(rng.choice(queries))
+    return dict(history=history, thr=thr, branch=rng.random() < 0.8, series=rng.random() < 0.8, parallel=rng.random() < 0.8,
                 max_cycles=rng.choice([None, None, 0, 1, 2]), use_epanet=(rng.random() < (0.5 if thorough else 0.2)),
                 return_map=rng.random() < 0.8,
                 pipes_excl=rng.sample(pn, rng.randint(0, min(2, len(pn)))) if rng.random() < 0.4 else [],
@@ -876,7 +969,7 @@ def total_expected(wntr, wn):
 class SkelRunner:
     def __init__(self, chk, ctx, wntr):
         self.chk, self.ctx, self.wntr = chk, ctx, wntr
-        self.lines, self.pending, self.merges = [], [], []
+        self.lines, self.pending, self.merges, self.ctl_lines = [], [], [], []
 
     def random_merges(self, n):
         """the two property functions called directly on random pipes (equal diameters, extreme ratios)"""
@@ -897,9 +990,29 @@ class SkelRunner:
     def run(self, d, cfg, failures, broken):
         wntr, ctx = self.wntr, self.ctx
         wn = build(wntr, d)
+        parts0 = ctl_parts(d)
+        parts = [dict(cond=list(p_["cond"]), then=list(p_["then"]), els=list(p_["els"])) for p_ in parts0]
+        edits = apply_history(wntr, wn, d, cfg.get("history", []), parts, ctx)
+        if edits is None:
+            ctx.count("skel:history:query-changed-the-model")
+            return
         v0 = view_skel(wn)
         d0 = wn.to_dict()
-        jr, pr, other = control_refs(wn)
+        # the elements the controls refer to NOW, from the description and its edit history (not from requires())
+        nk = {n[0]: n[1] for n in v0["nodes"]}
+        lk = {l[0]: l[3] for l in v0["links"]}
+        refs = [r for p_ in parts for r in p_["cond"] + p_["then"] + p_["els"]]
+        jr = set(x for t, x in refs if t == "n" and nk.get(x) == "J")
+        pr = set(x for t, x in refs if t == "l" and lk.get(x) is True)
+        rj, rp, _ = control_refs(wn)
+        if (rj, rp) != (jr, pr):
+            ctx.count("skel:requires-differs-from-current-controls")
+            broken.append(Broken("correspondence", "Rule/Control.requires() vs the elements the current controls refer to",
+                                 "history %s\nrequires(): junctions %s pipes %s\ncurrent controls: junctions %s pipes %s" % (cfg.get("history"), sorted(rj), sorted(rp), sorted(jr), sorted(pr))))
+        fr = lambda rs: " ".join("%s:%s" % r for r in rs)
+        self.ctl_lines.append(("ctlrefs | %s | %s | %s | %s" % (fmt_snodes(v0["nodes"]), fmt_slinks(v0["links"]),
+                                                            ";".join("%s,%s,%s" % (fr(p_["cond"]), fr(p_["then"]), fr(p_["els"])) for p_ in parts0), ";".join(edits)),
+                               sorted(jr), sorted(pr), cfg.get("history")))
         jx = sorted(jr | set(cfg["juncs_excl"]))
         px = sorted(pr | set(cfg["pipes_excl"]))
         ted0 = total_expected(wntr, wn)
@@ -1021,6 +1134,17 @@ class SkelRunner:
     def flush(self, failures, broken):
         merge_check(self.ctx, self.merges, broken)
         self.merges = []
+        if self.ctl_lines:
+            mo = vlib.lean_run(DRIVER, "\n".join(l[0] for l in self.ctl_lines) + "\n")
+            for (line, jr, pr, hist), ml in zip(self.ctl_lines, mo):
+                exp = "ok J=%s P=%s" % (" ".join(jr), " ".join(pr))
+                got = ml.strip()
+                if got.startswith("ok J="):
+                    a, b = got[5:].split(" P=") if " P=" in got else (got[5:], "")
+                    got = "ok J=%s P=%s" % (" ".join(sorted(set(a.split()))), " ".join(sorted(set(b.split()))))
+                if got != exp:
+                    broken.append(Broken("correspondence", "M9 ctlJunctions / ctlPipes vs the edited controls", "history %s\nmodel %s\nexpected %s" % (hist, got, exp)))
+            self.ctl_lines = []
         if not self.lines:
             return
         mo = vlib.lean_run(DRIVER, "\n".join(self.lines) + "\n")
@@ -1218,8 +1342,24 @@ class C19(Check):
         t2 = time.time()
         for i in range(n_skel):
             d = gen_net(ctx.rng, big=True, hyd=True)
+            # _Skeletonize.__init__ runs WNTRSimulator with its default 3000 Newton iterations: a network on which 400 iterations do
+            # not converge (a minute of wall time per call) is skeletonized with use_epanet=True only
+            wn = build(wntr, d)
+            wn.options.time.duration = 0
+            try:
+                with warnings.catch_warnings():
+                    warnings.simplefilter("ignore")
+                    wntr.sim.WNTRSimulator(wn).run_sim(solver_options={"MAXITER": 400}, convergence_error=True)
+                easy = True
+            except Exception:
+                easy = False
+                ctx.count("skel:net-hard-for-WNTRSimulator")
             for _ in range(2):
-                kr.run(d, gen_skel_cfg(ctx.rng, d, thorough), failures, broken)
+                cfg = gen_skel_cfg(ctx.rng, d, thorough)
+                if not easy:
+                    cfg["use_epanet"] = True
+                    cfg["history"] = [h for h in cfg["history"] if h.get("how") != "skel0"]
+                kr.run(d, cfg, failures, broken)
         kr.random_merges(100 if ctx.quick else 1000)
         kr.flush(failures, broken)
         ctx.cov["phase_seconds"] = dict(split_impl=round(t0 - ctx.t0, 1), split_driver=round(t1 - t0, 1), hydraulics=round(t2 - t1, 1),
